@@ -13,7 +13,8 @@ CASEPOOL = ["ok", "OK", "Ok", "oK", "GET", "get", "Get", "ß", "SS", "ss"]
 PSEUDO = ["1", "-2", "+3", "0", "1.5", "-0.5", "1e3", "1E-2", ".5", "5.", "true", "false", "True", "FALSE",
           " 12 ", "1_000", "١٢", "nan", "inf", "-inf", "Infinity", "0x10", "1__0", "_1", "12\n",
           "2020-01-02", "2020-01", "20200102", "12:30", "12:30:45.123", "2020-01-02T03:04:05",
-          "2020-01-02T03:04:05Z", "2020-01-02 03:04", "2020-W01-1", "T12", "1 Jan 2020"]
+          "2020-01-02T03:04:05Z", "2020-01-02 03:04", "2020-W01-1", "T12", "1 Jan 2020",
+          "0999-12-31", "0001-01-01", "09870605", "0987-06-05T01:02:03", "9999-12-31", "00:00", "23:59:59.999999"]
 
 
 # G-key: key styles (in-domain: contain an ASCII-transliterable letter, no leading digit/underscore)
@@ -518,6 +519,33 @@ def gen_identical_siblings(rng):
     if rng.random() < 0.3:
         out["stops"] = [{"at": shape(5)}, {"at": shape(6)}]
     return out
+
+
+def gen_python_equal_samples(rng):
+    """adjacent samples that are equal as Python values but differ in the JSON type of a number (1 == 1.0 == True), also
+    inside nested objects and lists: each contributes its own types"""
+    pairs = [(10, 10.0), (True, 1), (0, False), (1.0, True), ([1, 2], [1.0, 2.0]), ({"w": 2}, {"w": 2.0})]
+    a, b = rng.choice(pairs)
+    if rng.random() < 0.5:
+        a, b = b, a
+    base = {"id": "x", "name": "n"}
+    samples = [dict(base, v=a), dict(base, v=b)]
+    if rng.random() < 0.5:
+        samples.append(dict(base, v=a, extra=None))
+    if rng.random() < 0.3:
+        samples.insert(0, dict(base, dims={"w": 1, "h": 2}))
+        samples.insert(1, dict(base, dims={"w": 1.0, "h": 2}))
+    return samples
+
+
+def gen_many_referrers(rng):
+    """one model shape used by 17..24 differently named fields (a mapping given without a dict-keys option): the name
+    generated for the merged model is built from all the referring names"""
+    n = rng.randint(17, 24)
+    codes = ["usd", "eur", "gbp", "jpy", "chf", "cad", "aud", "nzd", "sek", "nok", "dkk", "pln", "czk", "huf", "ron", "bgn",
+             "brl", "mxn", "zar", "try", "inr", "cny", "hkd", "sgd", "krw", "thb"]
+    rng.shuffle(codes)
+    return {"rates": {c: {"bid": 1.5, "ask": 2.5, "n": 1, "src": "x"} for c in codes[:n]}, "base": "eur"}
 
 
 def gen_shared_samples(rng):
